@@ -96,7 +96,16 @@ def build_case(case, p=None):
             mm.project.name = s
     elif kind == "patterns":
         for slot in case["slots"]:
-            p.attach_pattern(make_pattern(slot))
+            pat = make_pattern(slot)
+            p.attach_pattern(pat)
+            if slot and slot.get("then_shape"):
+                # ORDER of calls: attached first (grid never touched), shaped afterwards
+                pat.lines, pat.tracks = slot["then_shape"]
+                for (line, track, cell) in slot.get("then_cells", []):
+                    import rv.api as rv
+
+                    n = pat.data[line][track]
+                    n.note, n.vel, n.module, n.ctl, n.val = rv.NOTECMD(cell[0]), cell[1], cell[2], cell[3], cell[4]
     elif kind == "metamodules":
         # several MetaModules with DIFFERENT user-controller counts in one project (and, before it, a
         # throw-away project saved with the first count only): per-instance state such as the number
@@ -196,6 +205,11 @@ def pattern_cases(thorough):
         shapes += [(t, l) for t in (4, 5) for l in (4, 5)] + [(32, 32)]
     for t, l in shapes:
         cases.append({"kind": "patterns", "slots": [{"t": "pattern", "tracks": t, "lines": l, "fill": True}]})
+    # a pattern that is attached BEFORE it gets its shape (and, in the second form, before its first cell is written)
+    for l2, t2 in ((8, 2), (1, 1), (64, 5), (32, 4)):
+        cases.append({"kind": "patterns", "slots": [{"t": "pattern", "then_shape": [l2, t2]}]})
+        cases.append({"kind": "patterns", "slots": [{"t": "pattern", "tracks": 3, "lines": 5, "then_shape": [l2, t2],
+                                                     "then_cells": [[l2 - 1, t2 - 1, [61, 77, 2, 0x0102, 0x0304]]]}]})
     # pattern attribute corners
     attrs = {
         "name": ["", "p", "näme 中", "n" * 100], "y_size": U32, "flags_PFLG": [0, 1, 2, 3, U32_MAX],
